@@ -137,34 +137,33 @@ func enumValueNames(name string, e *Enum) []string {
 	if pfx == "" {
 		pfx = strcase.ToScreamingSnake(name) + "_"
 	}
-	// a FIRST option ending in UNSPECIFIED is the zero value itself; otherwise the implicit
-	// <PREFIX>UNSPECIFIED precedes the options
-	var out []string
-	if len(e.Opts) == 0 || !strings.HasSuffix(e.Opts[0], "UNSPECIFIED") {
-		out = append(out, pfx+"UNSPECIFIED")
-	}
-	for _, o := range e.Opts {
-		if strings.HasPrefix(o, pfx) {
-			out = append(out, o)
-		} else {
-			out = append(out, pfx+o)
+	// value 0 is always <PREFIX>UNSPECIFIED; a FIRST option that spells it (UNSPECIFIED or
+	// <PREFIX>UNSPECIFIED) is that value, every other option - also a first one that merely ends
+	// in UNSPECIFIED - is a value of its own (fix a65e1f2)
+	out := []string{pfx + "UNSPECIFIED"}
+	for i, o := range e.Opts {
+		if !strings.HasPrefix(o, pfx) {
+			o = pfx + o
 		}
+		if i == 0 && o == pfx+"UNSPECIFIED" {
+			continue
+		}
+		out = append(out, o)
 	}
 	return out
 }
 
 var optWords = []string{"ACTIVE", "INACTIVE", "A", "B", "PENDING", "DONE", "X1", "OLD_VALUE", "NEW", "FAILED", "OK", "HTTP_2"}
 
-// optionName draws an enum option name; except in first position also names that end in
-// UNSPECIFIED (only the first option may stand for the zero value).
+// optionName draws an enum option name, also names that end in UNSPECIFIED without being the
+// zero value (in first position too: before fix a65e1f2 such a first option was taken as value 0).
 func (g *Gen) optionName(first bool) string {
 	o := vh.Pick(g.R, optWords)
 	if g.R.Chance(20) {
 		o += fmt.Sprint(g.R.Intn(5))
 	}
-	// not first: ends like the zero value, is not the zero value; first (rarely): a zero value
-	// with a name of its own (STATUS_OLD_UNSPECIFIED = 0)
-	if (!first && g.R.Chance(12)) || (first && g.R.Chance(3)) {
+	// ends like the zero value, is not the zero value
+	if (!first && g.R.Chance(12)) || (first && g.R.Chance(8)) {
 		o += "_UNSPECIFIED"
 	}
 	return o
@@ -193,6 +192,15 @@ func (g *Gen) enum(name string, allowEmpty bool) *Enum {
 	e := &Enum{Name: name}
 	defer func() {
 		for _, o := range e.Opts {
+			// an explicit `number` the compiler ignores (never on a name that could be the zero value:
+			// isExplicitZero looks at the number of the first option)
+			if !strings.HasSuffix(o, "UNSPECIFIED") && g.R.Chance(8) {
+				if e.OptNum == nil {
+					e.OptNum = map[string]int{}
+				}
+				e.OptNum[o] = g.R.Range(1, len(e.Opts)+2)
+				g.Stats["enum_option_number_attr"]++
+			}
 			if d := g.description(12); d != "" {
 				if e.OptDesc == nil {
 					e.OptDesc = map[string]string{}
@@ -568,6 +576,17 @@ func (g *Gen) property(sc *scope, depth int, inOneof bool) *Property {
 				g.Stats["optional_"+container]++
 			}
 		}
+	} else {
+		// an option of a oneof may be marked required, or optional (which says nothing: fix a0446fc,
+		// no proto3_optional on a member of the wrapper's oneof)
+		switch k := g.R.Intn(100); {
+		case k < 6:
+			p.Required = true
+			g.Stats["oneof_option_required"]++
+		case k < 16:
+			p.Optional = true
+			g.Stats["oneof_option_optional"]++
+		}
 	}
 	p.Desc = g.description(20)
 	return p
@@ -665,6 +684,22 @@ func (g *Gen) service() *Service {
 			m.HasResp = true
 			m.Response = g.propsFor([]string{mn + "Response"}, 1, false, g.R.Range(0, 4))
 		}
+		// list methods (a j5.list.v1.QueryRequest in the request; fix cec4e3a: the response must
+		// have exactly one array of objects): drawn on purpose too
+		if g.R.Chance(12) {
+			m.Request = append(m.Request, &Property{Name: g.fieldName(rsc), F: &Field{Kind: "objref", Ref: &Ref{Pkg: "j5.list.v1", Name: "QueryRequest"}}})
+		}
+		if !ListMethodOK(m) {
+			conformListResponse(m) // the non-conforming forms are a class of the malformed stream
+		}
+		if ListMethodOK(m) && len(m.Request) > 0 {
+			for _, p := range m.Request {
+				if IsQueryRef(p.F) {
+					g.Stats["list_method"]++
+					break
+				}
+			}
+		}
 		// path: literal segments and parameters naming request fields
 		var segs []string
 		for k := g.R.Range(0, 3); k > 0; k-- {
@@ -684,6 +719,75 @@ func (g *Gen) service() *Service {
 		s.Methods = append(s.Methods, m)
 	}
 	return s
+}
+
+// IsQueryRef: an object reference to j5.list.v1.QueryRequest (conservative: any reference with a
+// package prefix and that name; no declared type is called QueryRequest).
+func IsQueryRef(f *Field) bool {
+	return f != nil && f.Kind == "objref" && f.Ref != nil && f.Ref.Name == "QueryRequest" && f.Ref.Pkg != ""
+}
+
+// ListMethodOK: service.go checkListMethod (fix cec4e3a) - a method whose request holds a
+// j5.list.v1.QueryRequest must have a response with exactly one array, of objects.
+func ListMethodOK(m *Method) bool {
+	isList := false
+	for _, p := range m.Request {
+		if IsQueryRef(p.F) {
+			isList = true
+		}
+	}
+	if !isList {
+		return true
+	}
+	if !m.HasResp {
+		return false
+	}
+	var arrays []*Property
+	for _, p := range m.Response {
+		if p.F.Kind == "array" {
+			arrays = append(arrays, p)
+		}
+	}
+	return len(arrays) == 1 && (arrays[0].F.Item.Kind == "objref" || arrays[0].F.Item.Kind == "objinline")
+}
+
+// MethodOf finds the method whose request or response property list is props (nil: none).
+func MethodOf(b *Bundle, props *[]*Property) *Method {
+	for _, f := range b.Files {
+		for _, e := range f.Elements {
+			if e.Kind != "service" {
+				continue
+			}
+			for _, m := range e.Service.Methods {
+				if props == &m.Request || props == &m.Response {
+					return m
+				}
+			}
+		}
+	}
+	return nil
+}
+
+// conformListResponse gives a list method the response the compiler asks for: exactly one
+// array, of objects (an array already there is kept when it qualifies).
+func conformListResponse(m *Method) {
+	m.HasResp = true
+	var out []*Property
+	have := false
+	for _, p := range m.Response {
+		if p.F.Kind == "array" {
+			if have || !(p.F.Item.Kind == "objref" || p.F.Item.Kind == "objinline") {
+				continue
+			}
+			have = true
+		}
+		out = append(out, p)
+	}
+	if !have {
+		out = append(out, &Property{Name: "results9", F: &Field{Kind: "array", Item: &Field{Kind: "objinline",
+			Props: []*Property{{Name: "v", F: &Field{Kind: "scalar", Scalar: &Scalar{Kind: "string"}}}}}}})
+	}
+	m.Response = out
 }
 
 func (g *Gen) tmsg(named bool, sym map[string]bool, fallback string) *Tmsg {
